@@ -1,5 +1,11 @@
 // One operation per case line: `(op args...)` -> result S-expression.
 use crate::de_bruijn::{open, signed_shift, unsigned_shift};
+use crate::evaluator::{evaluate, is_value, step};
+use crate::parser::parse;
+use crate::tokenizer::tokenize;
+use crate::type_checker::type_check;
+use crate::error::Error;
+use crate::sx::{hex_decode, hex_encode};
 use crate::sx::{Sx, a, l, n};
 use crate::term::{Term, free_variables};
 use crate::tx::{Exporter, Importer};
@@ -9,8 +15,97 @@ pub fn run_case(c: &Sx) -> Sx {
     let v = c.list();
     match v[0].atom() {
         "sshift" | "ushift" | "open" | "fv" | "dblaws" => c11(v),
+        "step" | "isvalue" | "evalterm" => c02_term(v),
+        "pipe" => pipe(v),
         h => panic!("harness: unknown op {h}"),
     }
+}
+
+#[cfg(feature = "verif")]
+pub fn hooks_take() -> Sx {
+    let h = crate::verif_hooks::take();
+    l(vec![a("hooks"), n(h[0] as usize), n(h[1] as usize), n(h[2] as usize), n(h[3] as usize)])
+}
+#[cfg(not(feature = "verif"))]
+pub fn hooks_take() -> Sx {
+    l(vec![a("hooks")])
+}
+
+fn errs(tag: &str, es: &[Error]) -> Sx {
+    let mut r = vec![a(tag)];
+    for e in es {
+        r.push(a(&hex_encode(e.message.as_bytes())));
+    }
+    l(r)
+}
+
+// ------------------------------------------------------------------------ evaluator (term level)
+fn c02_term(v: &[Sx]) -> Sx {
+    let mut imp = Importer::default();
+    let t = imp.term(&v[1]);
+    match v[0].atom() {
+        "step" => exo(&step(&t)),
+        "isvalue" => b(is_value(&t)),
+        "evalterm" => match evaluate(&t) {
+            Ok(x) => l(vec![a("value"), ex(&x)]),
+            Err(_) => {
+                // recover the stuck term by driving `step` ourselves
+                let mut cur = t.clone();
+                while let Some(n) = step(&cur) {
+                    cur = n;
+                }
+                l(vec![a("stuck"), ex(&cur)])
+            }
+        },
+        _ => unreachable!(),
+    }
+}
+
+// ------------------------------------------------------------------------ whole pipeline on text
+// (pipe <mode> x:<hex source>)   mode: check | run
+pub fn pipe(v: &[Sx]) -> Sx {
+    let mode = v[1].atom().to_owned();
+    let bytes = hex_decode(v[2].atom());
+    let src = match String::from_utf8(bytes) {
+        Ok(s) => s,
+        Err(_) => return l(vec![a("notutf8")]),
+    };
+    let _ = hooks_take();
+    let tokens = match tokenize(None, &src) {
+        Ok(t) => t,
+        Err(es) => return errs("lexerr", &es),
+    };
+    let term = match parse(None, &src, &tokens[..], &[]) {
+        Ok(t) => t,
+        Err(es) => return errs("parseerr", &es),
+    };
+    let mut tc = vec![];
+    let mut dc = vec![];
+    let mut exp = Exporter::default();
+    let parsed = exp.term(&term, false);
+    let (e, ty) = match type_check(None, &src, &term, &mut tc, &mut dc) {
+        Ok(x) => x,
+        Err(es) => return errs("typeerr", &es),
+    };
+    let ctx_ok = tc.is_empty() && dc.is_empty();
+    let hooks_check = hooks_take();
+    let es = exp.term(&e, true);
+    let tys = exp.term(&ty, true);
+    let ev = if mode == "run" {
+        match evaluate(&e) {
+            Ok(x) => l(vec![a("value"), exp.term(&x, true)]),
+            Err(_) => {
+                let mut cur = e.clone();
+                while let Some(n) = step(&cur) {
+                    cur = n;
+                }
+                l(vec![a("stuck"), exp.term(&cur, true)])
+            }
+        }
+    } else {
+        a("noeval")
+    };
+    l(vec![a("ok"), parsed, es, tys, ev, b(ctx_ok), hooks_check])
 }
 
 fn ex(t: &Term<'static>) -> Sx {
